@@ -20,6 +20,7 @@ from functools import lru_cache
 from vf import gen
 from vf.c16_model import (
     AC_TAGS, ac_normal, bridge_normal, canon_triple, completeness_applies, instantiate, is_nary,
+    renaming_of,
     kids, mk, neutral_normal, positions, put_at, rename_vars, show_triple, shrink_triple,
     subterms, var_names, wildcard_names,
 )
@@ -40,6 +41,10 @@ FUNCTION_POOL = (V("g"),)                                # values for a candidat
 AGGREGATE_POOL = (V("brr"),)                             # ... in an aggregate slot
 RENAME_TO = ("a", "b", "c", "x", "y", "z")               # injective renamings map into these names
 RENAME_TO_QUICK = 5                                      # quick, nestings: only the first five of them
+RHS_TARGET_LEAVES = (A, X, C(1))                         # targets of the rhs_mapping_candidates family
+RENAME_TO_RHS = 4                                        # ... its renamings map into a b c x
+NP_CONSTANTS = (("np", "int64", 1), ("np", "float64", 2.5), ("np", "float32", 1.5),
+                ("np", "complex128", 1 + 2j), ("np", "bool", True))   # numpy scalar pattern leaves
 INDEP_LEAVES = (A, X, Y, C(0), C(1), C(2))               # leaves of independently generated targets
 PATTERN_CTORS = ("Call1", "Call2", "Subscript", "SubscriptT", "Sum2", "Sum3", "Product2",
                  "Product3", "Quotient", "Power", "Cmp<", "Cmp==", "If")
@@ -319,6 +324,29 @@ def indep_targets():
 
 
 @lru_cache(maxsize=None)
+def rhs_targets():
+    """root tag -> targets of the rhs_mapping_candidates family: depth-2 trees over a x 1, i.e.
+    with the pattern's own name a next to a foreign name."""
+    by = {}
+    for c in PCTORS:
+        for s in gen.depth2([c], RHS_TARGET_LEAVES, FILL):
+            by.setdefault(c.tag, []).append(s)
+    by["leaf"] = [A, X, C(1)]
+    return by
+
+
+@lru_cache(maxsize=None)
+def patterns_numpy():
+    """Depth-2 patterns over a, b and one numpy scalar constant (every dtype in NP_CONSTANTS)."""
+    out = []
+    for n in NP_CONSTANTS:
+        for s in gen.depth2(PCTORS, (A, B_, n), FILL):
+            if first_occurrence_canonical(s) and n in subterms(s):
+                out.append(s)
+    return tuple(out)
+
+
+@lru_cache(maxsize=None)
 def cross_targets():
     """root tag -> the nesting patterns themselves and their copies over x y z, used as
     independently generated depth-3 targets for every other nesting pattern with that root."""
@@ -346,9 +374,23 @@ def built(spec):
     return build(spec)
 
 
-def run_unifier(P, T_, K):
+def run_unifier(P, T_, K, R=None):
     from pymbolic.mapper.unifier import UnidirectionalUnifier
-    return UnidirectionalUnifier(frozenset(K))(built(P), built(T_))
+    if R is None:
+        return UnidirectionalUnifier(frozenset(K))(built(P), built(T_))
+    return UnidirectionalUnifier(frozenset(K), rhs_mapping_candidates=frozenset(R))(
+        built(P), built(T_))
+
+
+def completeness_applies_rhs(P, T_, K, R):
+    """... and, when the target variables that may be assigned are restricted to R, every
+    candidate is renamed to a name in R."""
+    if not completeness_applies(P, T_, K):
+        return False
+    if R is None:
+        return True
+    m_ = renaming_of(P, T_)
+    return all(v in R for n, v in m_.items() if n in K)
 
 
 def record_bindings(rec, K):
@@ -411,10 +453,10 @@ KIND_ORDER = ("raises", "undeclared-binding", "multi-valued", "lmap-disagrees", 
               "unsound-neutral-invented", "unsound-neutral-dropped", "incomplete")
 
 
-def judge(P, T_, K):
+def judge(P, T_, K, R=None):
     """-> (number of records, sorted list of (kind, label, text))."""
     try:
-        recs = run_unifier(P, T_, K)
+        recs = run_unifier(P, T_, K, R)
     except (RecursionError, Hang):
         raise
     except Exception as e:  # noqa: BLE001
@@ -429,15 +471,15 @@ def judge(P, T_, K):
         if ac_normal(inst) != nt:
             kind, label = classify_unsound(inst, T_)
             probs.append((kind, label, f"record {rec!r} instantiates the pattern to {show(inst)}"))
-    if not recs and completeness_applies(P, T_, K):
+    if not recs and completeness_applies_rhs(P, T_, K, R):
         probs.append(("incomplete", "", "target is the pattern under an injective renaming of its "
                       "candidates but no record was returned"))
     probs.sort(key=lambda p: (KIND_ORDER.index(p[0].split(":")[0]), p[1], p[2]))
     return len(recs), probs
 
 
-def kind_of(P, T_, K):
-    _, probs = judge(P, T_, K)
+def kind_of(P, T_, K, R=None):
+    _, probs = judge(P, T_, K, R)
     if not probs:
         return None
     return (probs[0][0], probs[0][1])
@@ -454,7 +496,7 @@ def well_formed_target(s) -> bool:
 MAX_SHRINKS_PER_ITEM = 2      # failing triples per item and kind that are reduced individually
 
 
-def report_triple(r, P, T_, K, probs, state):
+def report_triple(r, P, T_, K, probs, state, R=None):
     seen = set()
     for kind, label, text in probs:
         if (kind, label) in seen:
@@ -466,28 +508,30 @@ def report_triple(r, P, T_, K, probs, state):
             # many failures of one kind for one (pattern, candidate set): the first ones were
             # reduced to minimal triples, the rest are filed under the pattern
             P2, _, K2 = canon_triple(P, P, K)
-            sig = f"{kind}|{show(P2)} ~ (further targets) / {{{','.join(K2)}}}"
+            sig = (f"{kind}|{show(P2)} ~ (further targets) / {{{','.join(K2)}}}"
+                   + ("" if R is None else " rhs=..."))
         else:
             state[kind] = state.get(kind, 0) + 1
             def ko(p, t, k):
                 if not (well_formed_target(t) and well_formed_target(p)):
                     return None
-                return kind_of(p, t, k)
-            P2, T2, K2 = shrink_triple(P, T_, K, (kind, label), ko)
-            sig = f"{kind}|{show_triple(P2, T2, K2)}"
+                return kind_of(p, t, k, R)
+            sig = f"{kind}|" + show_triple(*shrink_triple(P, T_, K, (kind, label), ko, R=R))
+        rhs = "" if R is None else f"  rhs_mapping_candidates {{{','.join(R)}}}"
         r.fail(kind, sig,
-               f"pattern {show(P)}  target {show(T_)}  candidates {{{','.join(K)}}}: {text}",
-               witness=("triple", P, T_, tuple(K)))
+               f"pattern {show(P)}  target {show(T_)}  candidates {{{','.join(K)}}}{rhs}: {text}",
+               witness=(("triple", P, T_, tuple(K)) if R is None
+                        else ("triple", P, T_, tuple(K), tuple(R))))
 
 
-def do_triple(r, P, T_, K, state):
-    n, probs = judge(P, T_, K)
+def do_triple(r, P, T_, K, state, R=None):
+    n, probs = judge(P, T_, K, R)
     r.evals += 1
     if n:
         r.count("records", n)
-        r.keys.append(("u", P, T_, K))
+        r.keys.append(("u", P, T_, K) if R is None else ("u", P, T_, K, R))
     if probs:
-        report_triple(r, P, T_, K, probs, state)
+        report_triple(r, P, T_, K, probs, state, R)
     return n
 
 # }}}
@@ -967,7 +1011,12 @@ class C16(Check):
             "is, with operands reversed, flattened, flattened+reversed, rotated and regrouped "
             "(thorough: all root permutations up to 4 operands, 3 for the deeper patterns), (ii) every exact injective renaming "
             "of the candidates into a b c x y z (quick, nestings: a b c x y and candidate subsets "
-            "of a b c only), (iii) every independently generated depth<=2 tree "
+            "of a b c only), (ii') the rhs_mapping_candidates option: every depth<=2 pattern against "
+            "every same-root depth-2 tree over a x 1 with every subset of the target's variable "
+            "names as right-hand candidate set, and every exact renaming into a b c x of the "
+            "depth<=2 and sibling patterns with all target names resp. all but one image allowed, "
+            "(ii'') depth-2 patterns with one numpy scalar constant (int64 float64 float32 "
+            "complex128 bool_) against their renamings and instances, (iii) every independently generated depth<=2 tree "
             "with the same root (leaves a x y 0 1 2, nested / 4-ary sums and products, 1-tuple "
             "indices, other function / aggregate symbols), one representative of every other root, "
             "and for nestings every other nesting with the same root. bridge: to/from round trip on "
@@ -992,6 +1041,12 @@ class C16(Check):
         "the completeness clause is applied to targets that are structurally the pattern under an "
         "injective renaming that moves only declared candidates (non-candidate names are symbols)",
         "a record's bindings are read from .equations; .lmap must say the same",
+        "with rhs_mapping_candidates=R the completeness clause is applied only when every candidate "
+        "is renamed to a name in R (a candidate facing a target variable outside R can neither be "
+        "bound nor matched literally); soundness is demanded for every R",
+        "numpy scalar constants occur only in patterns whose targets are built from the pattern "
+        "(so the same numpy objects' specs appear on both sides) and never next to an ==-equal "
+        "Python constant",
         "candidate sets are passed as frozensets of names",
         "a dot wildcard inside a sum/product may stand for a sum/product of several operands "
         "(matchpy's associative matching); the bridge's instantiation law is checked modulo AC of "
@@ -1029,6 +1084,12 @@ class C16(Check):
                                        for K in candidate_sets(P, full=(tier == "thorough")))),
             ("u-indep", lambda: (("indep", P, K) for P in patterns_depth2()
                                  for K in candidate_sets(P))),
+            ("u-rhs", lambda: (("rhs", P, K) for P in patterns_depth2()
+                               for K in candidate_sets(P))),
+            ("u-rhs-rename", lambda: (("renrhs", P, K) for P in patterns_depth2()
+                                      + patterns_siblings() for K in candidate_sets(P, full=False))),
+            ("u-numpy-const", lambda: (("np", P, K) for P in patterns_numpy()
+                                       for K in candidate_sets(P, full=False))),
             ("u-cross", lambda: (("cross", P, K) for P in patterns_nest()
                                  for K in candidate_sets(P, full="few" if tier == "thorough"
                                                          else "all-core"))),
@@ -1057,7 +1118,8 @@ class C16(Check):
         what = item[0]
         state = {}
         if what == "triple":
-            do_triple(r, item[1], item[2], tuple(item[3]), state)
+            do_triple(r, item[1], item[2], tuple(item[3]), state,
+                      tuple(item[4]) if len(item) > 4 else None)
         elif what == "inst":
             _, P, K, pool, first = item
             K = tuple(K)
@@ -1085,6 +1147,36 @@ class C16(Check):
                 for t in cross_root_representatives():
                     if t[0] != P[0]:
                         do_triple(r, P, t, K, state)
+        elif what == "rhs":
+            # the rhs_mapping_candidates option: every subset of the target's variable names
+            P, K = item[1], tuple(item[2])
+            by = rhs_targets()
+            for t in by[P[0] if P[0] in by else "leaf"]:
+                for R in subsets(var_names(t)):
+                    do_triple(r, P, t, K, state, R)
+        elif what == "renrhs":
+            # exact renamings with the target names that may be assigned restricted: all of them,
+            # and all but one
+            P, K = item[1], tuple(item[2])
+            for t in renamings(P, K, RENAME_TO_RHS):
+                names = var_names(t)
+                m_ = renaming_of(P, t) or {}
+                images = [n for n in names if n in {m_.get(k) for k in K}]
+                # (dropping a name no candidate is renamed to cannot change anything)
+                for R in [tuple(names)] + [tuple(x for x in names if x != n) for n in images]:
+                    n_ = do_triple(r, P, t, K, state, R)
+                    if completeness_applies_rhs(P, t, K, R):
+                        r.count("renamings", 1)
+                        if n_:
+                            r.count("renamings_matched", 1)
+        elif what == "np":
+            P, K = item[1], tuple(item[2])
+            seen = set()
+            for t in itertools.chain(renamings(P, K, RENAME_TO_RHS),
+                                     instances(P, K, VALUE_POOL_SMALL, tier)):
+                if t not in seen:
+                    seen.add(t)
+                    do_triple(r, P, t, K, state)
         elif what == "cross":
             P, K = item[1], tuple(item[2])
             for t in cross_targets()[P[0]]:
